@@ -296,9 +296,13 @@ impl PupRelation {
                                         Expr::col(sum_square_col),
                                         Expr::greatest(Expr::val(1.), Expr::col(count_col.clone())),
                                     ),
-                                    Expr::divide(
-                                        Expr::col(sum_col),
-                                        Expr::greatest(Expr::val(1.), Expr::col(count_col)),
+                                    // the variance is E[x^2] - E[x]^2: the mean has to be squared
+                                    Expr::pow(
+                                        Expr::divide(
+                                            Expr::col(sum_col),
+                                            Expr::greatest(Expr::val(1.), Expr::col(count_col)),
+                                        ),
+                                        Expr::val(2),
                                     ),
                                 ),
                             )),
@@ -331,9 +335,13 @@ impl PupRelation {
                                         Expr::col(sum_square_col),
                                         Expr::greatest(Expr::val(1.), Expr::col(count_col.clone())),
                                     ),
-                                    Expr::divide(
-                                        Expr::col(sum_col),
-                                        Expr::greatest(Expr::val(1.), Expr::col(count_col)),
+                                    // the variance is E[x^2] - E[x]^2: the mean has to be squared
+                                    Expr::pow(
+                                        Expr::divide(
+                                            Expr::col(sum_col),
+                                            Expr::greatest(Expr::val(1.), Expr::col(count_col)),
+                                        ),
+                                        Expr::val(2),
                                     ),
                                 ),
                             ),
